@@ -130,7 +130,7 @@ def check_dataset_pair(ctx, writer_q, reader_q, kind):
         d_ = (kf or {}).get("data")
         sh = (ke or {}).get("shape")
         ok = d_ is not None and U(fvs.expand(d_, full, stop=("self",))) == "self.data" and sh is not None and U(evs.expand(sh, emp)) == "()" and len(full.args) >= 1 and len(emp.args) >= 1 \
-            and U(full.args[0]) == U(emp.args[0]) == w.params[2] and "data" not in (ke or {}) and "shape" not in (kf or {})
+            and len(w.params + w.kwonly) >= 3 and U(full.args[0]) == U(emp.args[0]) == (w.params + w.kwonly)[2] and "data" not in (ke or {}) and "shape" not in (kf or {})
     okc = cls_val in (["self[0].__class__.__name__"], ["type(self[0]).__name__"])
     ctx.decide(bool(ok and okc), "IOAGREE", f"{site}:payload", (w, cds[0]) if cds else w,
                "non-empty: dataset = self.data tagged with the members' class name; empty: shape-() dataset under the same key",
@@ -457,7 +457,8 @@ def check_exact_eq(ctx):
     for q in (f"{EM}.EmulsionTimeCourse.__eq__", f"{TR}.DropletTrack.__eq__"):
         g = m.func(q)
         rets = [s for s in ast.walk(g.node) if isinstance(s, ast.Return)]
-        ok = len(rets) == 1 and "self.times == other.times" in U(rets[0].value)
+        gv = view(m, g)
+        ok = len(rets) == 1 and "self.times == other.times" in U(gv.expand(rets[0].value, rets[0]))
         ctx.decide(ok, "IOAGREE", q, g, "equality compares the times and the members", "equality ignores the times")
 
 
